@@ -331,8 +331,8 @@ fn publish_diagnostics(
 /// Find the index of the token at a (line, character) position (0-based LSP coords).
 /// Matches tokens whose text span covers the cursor.
 fn token_index_at(doc: &AnalysisResult, line: u32, character: u32) -> Option<usize> {
-    let target_line = (line + 1) as usize;
-    let target_col = (character + 1) as usize;
+    let target_line = (line as usize).saturating_add(1);
+    let target_col = (character as usize).saturating_add(1);
     doc.tokens.iter().position(|tok| {
         tok.pos.line == target_line
             && tok.pos.column <= target_col
@@ -354,8 +354,8 @@ fn token_at(doc: &AnalysisResult, line: u32, character: u32) -> Option<Rc<str>> 
 /// Find the token prefix being typed at (line, character): the longest BAREWORD
 /// ending at or before the cursor on the same line.
 fn token_prefix_at(doc: &AnalysisResult, line: u32, character: u32) -> String {
-    let target_line = (line + 1) as usize;
-    let target_col = (character + 1) as usize;
+    let target_line = (line as usize).saturating_add(1);
+    let target_col = (character as usize).saturating_add(1);
     // Find the last token on this line that starts at or before the cursor.
     // Note: this intentionally does NOT use token_ref_at because it wants the
     // last token starting at-or-before the cursor, not the token spanning it.
@@ -373,8 +373,8 @@ fn cursor_in_string(doc: &AnalysisResult, line: u32, character: u32) -> Option<S
     use crate::ast::TokenType;
     // cursor_in_string needs special span logic (+2 for quotes), so we can't
     // directly reuse token_ref_at. But we still use the same coord conversion.
-    let target_line = (line + 1) as usize;
-    let target_col = (character + 1) as usize;
+    let target_line = (line as usize).saturating_add(1);
+    let target_col = (character as usize).saturating_add(1);
     doc.tokens
         .iter()
         .find(|tok| {
